@@ -247,7 +247,7 @@ def correspond(ctx: C.Ctx, cov: C.Coverage) -> List[C.Disagreement]:
                 "Content-Type variants x 15 limit/cursor values x level, against stores built up by well-formed requests; status, Location, "
                 "payload and the complete store snapshot compared with the model after every request. non-trivial = the request is rejected "
                 "for a reason other than unknown route; distinct = (method, route shape, status)")
-    hs = [GridHistory(f"g:{ctx.seed}:{k}", rng.randint(8, 16), True) for k in range(ctx.budget(140, 2500))]
+    hs = [GridHistory(f"g:{ctx.seed}:{k}", rng.randint(8, 16), True) for k in range(ctx.budget(140, 1100))]
     dis: List[C.Disagreement] = []
     lines, impl, index, kept = c10.run_histories(hs, False, None, "dict")
     for h in kept:
@@ -262,7 +262,7 @@ def correspond(ctx: C.Ctx, cov: C.Coverage) -> List[C.Disagreement]:
             if st == "crash" or (isinstance(st, int) and st >= 400 and not (st == 404 and shape in ("/nothing", "/submodels/{id}/nothing"))):
                 cov.nontrivial.add(C.sha([R["m"], shape, st]))
     dis += c10.compare("C11", lines, impl, index, kept, False, "dict store")
-    hf = [GridHistory(f"gf:{ctx.seed}:{k}", rng.randint(6, 12), True) for k in range(ctx.budget(12, 250))]
+    hf = [GridHistory(f"gf:{ctx.seed}:{k}", rng.randint(6, 12), True) for k in range(ctx.budget(12, 120))]
     lines, impl, index, kept2 = c10.run_histories(hf, True, None, "file")
     for h in kept2:
         cov.evaluations += len(h)
@@ -279,7 +279,7 @@ def oracle(ctx: C.Ctx, cov: C.Coverage) -> List[C.Failing]:
     rng = random.Random(f"C11-oracle:{ctx.seed}")
     out: List[C.Failing] = []
     sigs = set()
-    for k in range(ctx.budget(120, 2500)):
+    for k in range(ctx.budget(120, 1100)):
         fb = k % 6 == 5
         srv = c10.Server(fb)
         reqs: List[Dict[str, Any]] = []
